@@ -131,13 +131,19 @@ class RecDict(dict):
         super().__init__(*a, **k)
         self.reads = []
         self.writes = []
+        self.first_reads = []       # names whose FIRST access was a look-up (the value came from outside the statement)
+
+    def _read(self, k):
+        self.reads.append(k)
+        if k not in self.writes and k not in self.first_reads:
+            self.first_reads.append(k)
 
     def __getitem__(self, k):
-        self.reads.append(k)
+        self._read(k)
         return super().__getitem__(k)
 
     def __contains__(self, k):
-        self.reads.append(k)
+        self._read(k)
         return super().__contains__(k)
 
     def __setitem__(self, k, v):
